@@ -84,6 +84,12 @@ class Recorder:
     def num(self, obj):
         return self.objs.get(id(obj), 0)
 
+    def callable_index(self, obj):
+        """Number of a recording callable (0 = not one of ours).  Recorders of checks whose
+        callables are told apart by more than the object itself (C18: a method by its
+        receiver) override this."""
+        return getattr(obj, "_jv_callable_index", 0)
+
     def new_value(self):
         self.nv += 1
         return self.nv
@@ -246,7 +252,7 @@ class Sink:
 # logging environments
 # --------------------------------------------------------------------------
 
-def make_env(rec, immutable=False, policy="default", extra_base=None, deny=(), **kw):
+def make_env(rec, immutable=False, policy="default", extra_base=None, deny=(), frozen=(), **kw):
     """A (Immutable)SandboxedEnvironment whose gate methods log super()'s decision."""
     from jinja2 import sandbox
     from jinja2.runtime import Undefined
@@ -266,6 +272,14 @@ def make_env(rec, immutable=False, policy="default", extra_base=None, deny=(), *
             def is_safe_callable(self, obj):
                 return super().is_safe_callable(obj) and not any(obj is d for d in denied)
         base = DenyByIdentity
+    elif policy == "denyrecv":
+        locked = frozen        # receivers the application has frozen (the caller may fill / edit the list)
+
+        class DenyByReceiver(base):      # an application policy that looks at what a method is bound to
+            def is_safe_callable(self, obj):
+                owner = getattr(obj, "__self__", None) if not isinstance(obj, Tracer) else None
+                return super().is_safe_callable(obj) and not any(owner is d for d in locked)
+        base = DenyByReceiver
 
     class LoggingEnv(base):
         def is_safe_attribute(self, obj, attr, value):
@@ -275,7 +289,7 @@ def make_env(rec, immutable=False, policy="default", extra_base=None, deny=(), *
 
         def is_safe_callable(self, obj):
             ok = super().is_safe_callable(obj)
-            i = getattr(obj, "_jv_callable_index", 0) if not isinstance(obj, Tracer) else 0
+            i = rec.callable_index(obj) if not isinstance(obj, Tracer) else 0
             if i:
                 rec.emit("callgate", v=i, ok=ok)
             return ok
@@ -368,9 +382,10 @@ def validate(ck, pid, traces, label, batch=4000, parallel=4):
     return rejected
 
 
-def conf_tla(env="sandbox", impl="abstract", policy="default", icept=()):
+def conf_tla(env="sandbox", impl="abstract", policy="default", icept=(), multi=False):
+    """multi: the environment serves several renders (SandboxGate.NewRender is enabled)"""
     return (f'[env |-> "{env}", impl |-> "{impl}", policy |-> "{policy}", '
-            f'icept |-> {{{", ".join(core.tla_str(o) for o in icept)}}}]')
+            f'icept |-> {{{", ".join(core.tla_str(o) for o in icept)}}}, multi |-> {"TRUE" if multi else "FALSE"}]')
 
 
 def gate_model(pid, name, confs, maxsteps, kinds, ops, invariants, **kw):
